@@ -121,12 +121,17 @@ type wireViolation struct {
 }
 
 type wireStats struct {
-	T      string      `json:"t"`
-	Stats  *core.Stats `json:"stats"`
-	VCount int64       `json:"vcount"`
-	Keys   int         `json:"keys"`
-	Logs   int         `json:"logs"`
+	T       string      `json:"t"`
+	Stats   *core.Stats `json:"stats"`
+	VCount  int64       `json:"vcount"`
+	Keys    int         `json:"keys"`
+	Logs    int         `json:"logs"`
+	Stopped bool        `json:"stopped_early"`
 }
+
+// maxViolationsPerWorker ends a worker's slice early on a tree that fails in
+// run after run.
+const maxViolationsPerWorker = 150
 
 // executeRun runs one case, converting harness panics into HarnessError.
 func executeRun(p core.Prop, t *tape.Tape, st *core.Stats) (v *core.Violation, herr string) {
@@ -223,6 +228,7 @@ func cmdWorker(args []string) {
 	}
 	perSig := map[string]int{}
 	var vcount int64
+	stoppedEarly := false
 	for i := *from + *w; i < runs; i += *W {
 		if *careful {
 			fmt.Fprintf(out, "{\"t\":\"cur\",\"i\":%d}\n", i)
@@ -245,13 +251,20 @@ func cmdWorker(args []string) {
 			if perSig[v.Sig] <= 2 && len(perSig) <= 40 {
 				enc.Encode(wireViolation{"v", i, t.Vals, v.Class, v.Sig, v.Detail, v.Render})
 			}
+			if vcount >= maxViolationsPerWorker {
+				// fail fast: a tree that violates the property in hundreds of runs has
+				// been judged; each further run may be slow (gigabyte allocations,
+				// step budgets), so the rest of the slice is skipped and said so
+				stoppedEarly = true
+				break
+			}
 		}
 	}
 	if *keys != "" {
 		writeKeys(*keys+".keys", st.Distinct)
 		writeKeys(*keys+".logs", st.Logs)
 	}
-	enc.Encode(wireStats{"stats", st, vcount, len(st.Distinct), len(st.Logs)})
+	enc.Encode(wireStats{"stats", st, vcount, len(st.Distinct), len(st.Logs), stoppedEarly})
 }
 
 func writeKeys(path string, m map[uint64]struct{}) {
@@ -299,6 +312,7 @@ type foundViolation struct {
 }
 
 type workerResult struct {
+	stopped  bool
 	hangTape []uint64
 	stats    *core.Stats
 	vcount   int64
@@ -364,7 +378,7 @@ func runWorker(args []string, env []string, timeout time.Duration) workerResult 
 				var s wireStats
 				s.Stats = core.NewStats()
 				json.Unmarshal(line, &s)
-				res.stats, res.vcount = s.Stats, s.VCount
+				res.stats, res.vcount, res.stopped = s.Stats, s.VCount, s.Stopped
 			case "hang":
 				res.hangAt = head.I
 				res.hangTape = head.Tape
@@ -414,6 +428,7 @@ func mergeStats(dst, src *core.Stats) {
 	dst.Evals += src.Evals
 	dst.NonTrivial += src.NonTrivial
 	dst.Steps += src.Steps
+	dst.CodeSteps += src.CodeSteps
 	for k, v := range src.Faults {
 		f := dst.Faults[k]
 		if f == nil {
@@ -533,6 +548,7 @@ func cmdRun(args []string) {
 	var vcount int64
 	hangIsV := hooks.HangIsViolation[*propID]
 	hangConfirmed := false
+	stoppedWorkers := 0
 	for k := int64(0); k < W; k++ {
 		r := &results[k]
 		from := int64(0)
@@ -558,6 +574,9 @@ func cmdRun(args []string) {
 				mergeStats(total, r.stats)
 				found = append(found, r.viol...)
 				vcount += r.vcount
+				if r.stopped {
+					stoppedWorkers++
+				}
 				break
 			}
 			if r.crashed {
@@ -768,6 +787,7 @@ func cmdRun(args []string) {
 			"rule":                   p.Rule(),
 			"samples":                total.Samples,
 			"sim_steps":              total.Steps,
+			"code_steps":             total.CodeSteps,
 			"sim_time_note":          "prism has no clock or timer; simulated time is reported as steps (source Read events, scheduler steps)",
 			"fault_kinds":            faults,
 			"probes":                 total.Probes,
@@ -799,6 +819,9 @@ func cmdRun(args []string) {
 			"violations":  len(reported),
 		}
 		writeJSON(*evidence, ev)
+	}
+	if stoppedWorkers > 0 {
+		fmt.Printf("note: %d of %d workers stopped their slice after %d violating runs each (fail fast); coverage figures are partial\n", stoppedWorkers, W, maxViolationsPerWorker)
 	}
 	fmt.Printf("== %s: %d runs, %d non-trivial (%d distinct), %d distinct schedules, %d violating runs, %d reported, %.1fs\n",
 		*propID, total.Evals, total.NonTrivial, distinct, distinctLogs, vcount, len(reported), wall)
